@@ -116,7 +116,7 @@ class Check(PropertyCheck):
     level_text = ("Lean theorems (client_hooks_paired, connect_outcome_exactly_one, connected_then_disconnected_once, "
                   "at_most_five_per_address, no_transports_after_return, wait_counts_callbacks, "
                   "final_wait_covers_transports, semaphore_accounts_balanced, at_most_n_per_address, "
-                  "waiters_are_tasks_of_the_address, cancelled_waiter_keeps_count, slot_keyed_on_dialled_address) about a program-counter model of ConnectionHandler's tasks (handle_client, one "
+                  "waiters_are_tasks_of_the_address, cancelled_waiter_keeps_count, slot_keyed_on_dialled_address, only_late_opens_remain, late_marks_imply_lateOpen, early_connections_settled_at_return, final_wait_covers_early_transports) about a program-counter model of ConnectionHandler's tasks (handle_client, one "
                   "task per open_connection, the client connection handler, hook tasks) TOGETHER WITH an explicit small-step "
                   "model of the asyncio machinery they rely on: per-task done-callback lists in registration order "
                   "(release_transport, asyncio.wait's completion callback) run only after the task finished, "
@@ -139,9 +139,11 @@ class Check(PropertyCheck):
                   "tie). What the done-callback/asyncio.wait part takes from asyncio is that a future's callbacks run after "
                   "completion in registration order — the completion callback of asyncio.wait is not observable from "
                   "outside and is placed in the replayed schedule right behind the observed release_transport callback. "
-                  "handle_client itself is assumed not to be cancelled from outside; no_transports_after_return assumes the "
-                  "layer opens no connection after handle_client has collected the transports to wait for (ghost flag "
-                  "lateOpen; real layers are not proved to obey it; an example shows the hypothesis is needed); GC of "
+                  "handle_client itself is assumed not to be cancelled from outside; no_transports_after_return keeps its "
+                  "hypothesis (no late open) but is now accompanied by only_late_opens_remain / "
+                  "early_connections_settled_at_return, which need NO hypothesis about the layer: at return only entries of "
+                  "connections opened after handle_client had collected the transports may remain (ghost mark `late`, "
+                  "whose count the model predicts and the tie compares); GC of "
                   "writers, real sockets and the event loop's selector are out of scope; the tie is differential "
                   "(systematic cancellation/disconnect injection at every step of base scenarios + random scripts).")
     technique = "Lean 4 proof (invariants over all schedules of a task system) + trace-inclusion correspondence on a virtual-time loop"
@@ -285,10 +287,15 @@ class Check(PropertyCheck):
         # real state at the quiescent points: [entries, open upstream writers, client entry, client writer open, semaphore
         # holders, #client_connected, #client_disconnected]
         view, ncc, ncd = [], 0, 0
+        collected, nlate, pend = False, 0, 0      # OpenConnections processed after handle_client collected the transports
         for r in obs["trace"]:
             if r[0] == "hook" and r[2] == "cc": ncc += 1
             elif r[0] == "hook" and r[2] == "cd": ncd += 1
-            elif r[0] == "snap": view.append(list(r[1:6]) + [ncc, ncd, r[6], r[5]])
+            elif r[0] == "hookret" and r[1] == "H" and r[2] == "cd": collected = True
+            elif r[0] == "ev": pend = 0
+            elif r[0] == "cmd" and r[1] == "open" and collected: pend += 1
+            elif r[0] == "tset" and pend and r[3] == 0: nlate += 1; pend -= 1      # the open went through (no crash)
+            elif r[0] == "snap": view.append(list(r[1:6]) + [ncc, ncd, r[6], r[5], nlate])
         obs["snaps"] = view
         nattempts = sum(1 for l in lines for w in l.split()[-1:] if l.startswith("a ") and " ev " in l for c in w.split(",") if c.startswith("o"))
         per = [[0, 0, 0, 0] for _ in range(nattempts)]
@@ -427,9 +434,9 @@ class Check(PropertyCheck):
         return self._last["lines"]
 
     def model_obs(self, case, replies):
-        stuck = next((i for i, r in enumerate(replies[:-1]) if r not in ("ok",) and len(r.split()) != 12), None)
-        # entries, open writers, client entry, client writer, holders, #cc, #cd, queued waiters, slots taken
-        qs = [[int(x) for x in (r.split()[:5] + r.split()[6:8] + r.split()[10:12])] for r in replies[:-1] if len(r.split()) == 12]
+        stuck = next((i for i, r in enumerate(replies[:-1]) if r not in ("ok",) and len(r.split()) != 13), None)
+        # entries, open writers, client entry, client writer, holders, #cc, #cd, queued waiters, slots taken, late opens
+        qs = [[int(x) for x in (r.split()[:5] + r.split()[6:8] + r.split()[10:13])] for r in replies[:-1] if len(r.split()) == 13]
         qc = replies[-1]
         per = [] if qc in ("-",) else [[int(x) for x in c.split(",")[:4]] for c in qc.split(";")] if "," in qc else qc
         return {"stuck_at": stuck, "snaps": qs, "attempts": per}
